@@ -1,5 +1,6 @@
 // C16 - Sliding-window statistics and ring buffers reflect exactly the last W items
 #include "vf_main.hpp"
+#include <algorithm>
 
 #include <Eigen/Core>
 #include <deque>
@@ -127,9 +128,20 @@ void averageHistory(vf::Ctx & c)
   // hand written in this class); -1 = never
   const int copyAt = c.s.flag("continue_on_a_copy", 1, 3) ? static_cast<int>(c.s.i("copy_before_update", 0, std::max<int>(0, static_cast<int>(h.values.size()) - 1))) : -1;
   if (copyAt >= 0 && !h.values.empty()) {c.label("continued-on-a-copy");}
+  // the window is given to the constructor / set afterwards with setWindowSize / set to something else first
+  const size_t configuredBy = c.s.pick("window_configured_by", {2, 1, 1});
+  c.labelIf(configuredBy != 0, "window-set-with-setWindowSize");
   c.commit();
 
-  std::unique_ptr<OnlineAverage> avgHolder(new OnlineAverage(pr.p, static_cast<size_t>(W)));
+  std::unique_ptr<OnlineAverage> avgHolder;
+  if (configuredBy == 0) {
+    avgHolder.reset(new OnlineAverage(pr.p, static_cast<size_t>(W)));
+  } else {
+    avgHolder.reset(new OnlineAverage(pr.p));
+    if (configuredBy == 2) {avgHolder->setWindowSize(static_cast<size_t>(W % 7 + 1));}
+    avgHolder->setWindowSize(static_cast<size_t>(W));
+  }
+  VF_CHECK(c, avgHolder->getWindowSize() == static_cast<size_t>(W), "getWindowSize() = %zu, configured window %d", avgHolder->getWindowSize(), W);
   const double mLo = std::max(1.0, std::floor(1.0 / pr.p) - 1.0);
   const double truncBound = 1.0 / mLo;
   size_t pos = 0;
@@ -152,6 +164,7 @@ void averageHistory(vf::Ctx & c)
       if (static_cast<int>(win.size()) > W) {win.pop_front();}
       bool avail = avgHolder->isAvailable();
       VF_CHECK(c, avail == (n >= W), "segment %zu update %d (W=%d): isAvailable()=%d but %d samples arrived since the last reset", s, n, W, avail, n);
+      VF_CHECK(c, avgHolder->getWindowSize() == static_cast<size_t>(W), "segment %zu update %d: getWindowSize() = %zu, configured window %d", s, n, avgHolder->getWindowSize(), W);
       LD sum = 0;
       for (double x : win) {sum += x;}
       LD mean = sum / static_cast<LD>(win.size());
@@ -184,9 +197,26 @@ void varianceHistory(vf::Ctx & c)
   Hist h = genHistory(c, W, pr, exact, frac);
   const int copyAt = c.s.flag("continue_on_a_copy", 1, 3) ? static_cast<int>(c.s.i("copy_before_update", 0, std::max<int>(0, static_cast<int>(h.values.size()) - 1))) : -1;
   if (copyAt >= 0 && !h.values.empty()) {c.label("continued-on-a-copy");}
+  // the window is given to the constructor / set afterwards with setWindowSize (directly, or through a reference to the
+  // base class: the function is virtual) / set to something else first
+  const size_t configuredBy = c.s.pick("window_configured_by", {2, 1, 1, 1});
+  c.labelIf(configuredBy != 0, "window-set-with-setWindowSize");
   c.commit();
 
-  std::unique_ptr<OnlineVariance> varHolder(new OnlineVariance(pr.p, static_cast<size_t>(W)));
+  std::unique_ptr<OnlineVariance> varHolder;
+  if (configuredBy == 0) {
+    varHolder.reset(new OnlineVariance(pr.p, static_cast<size_t>(W)));
+  } else {
+    varHolder.reset(new OnlineVariance(pr.p));
+    if (configuredBy == 2) {varHolder->setWindowSize(static_cast<size_t>(W % 7 + 2));}
+    if (configuredBy == 3) {
+      OnlineAverage & base = *varHolder;
+      base.setWindowSize(static_cast<size_t>(W));
+    } else {
+      varHolder->setWindowSize(static_cast<size_t>(W));
+    }
+  }
+  VF_CHECK(c, varHolder->getWindowSize() == static_cast<size_t>(W), "getWindowSize() = %zu, configured window %d", varHolder->getWindowSize(), W);
   const double mLo = std::max(1.0, std::floor(1.0 / pr.p) - 1.0);
   const double d = 1.0 / mLo;
   size_t pos = 0;
@@ -238,6 +268,53 @@ void varianceHistory(vf::Ctx & c)
   }
 }
 
+template<class V>
+void runRing(vf::Ctx & c, int cap, const std::vector<int> & ops, const std::vector<int> & aliasIdx)
+{
+  auto item = [](int id) {
+      V v;
+      for (int d = 0; d < v.size(); ++d) {v[d] = static_cast<typename V::Scalar>(d == 0 ? id : -2.0 * id + d);}
+      return v;
+    };
+  romea::core::RingOfEigenVector<V> ring(static_cast<size_t>(cap));
+  std::deque<int> model;  // ids, newest first
+  int id = 0;
+  int step = 0;
+  for (int op : ops) {
+    if (op == 0) {
+      ++id;
+      ring.append(item(id));
+      model.push_front(id);
+      if (static_cast<int>(model.size()) > cap) {model.pop_back();}
+    } else if (op == 2) {
+      // the argument is a reference into the ring itself: the appended item must be the value it had at the call
+      int which = model[static_cast<size_t>(aliasIdx[static_cast<size_t>(step)])];
+      ring.append(ring[static_cast<size_t>(aliasIdx[static_cast<size_t>(step)])]);
+      model.push_front(which);
+      if (static_cast<int>(model.size()) > cap) {model.pop_back();}
+    } else {
+      ring.clear();
+      model.clear();
+    }
+    VF_CHECK(c, ring.size() == model.size(), "op %d: size() = %zu, expected min(n, capacity) = %zu (capacity %d)", step, ring.size(), model.size(), cap);
+    for (size_t k = 0; k < model.size(); ++k) {
+      const V & e = ring[k];
+      if (!(e == item(model[k]))) {
+        c.fail(vf::fmt("op %d (capacity %d, %zu held): ring[%zu] is item %g, the %zu-th most recent item is %d", step, cap, model.size(), k, e[0], k, model[k]));
+      }
+    }
+    // the storage handed out by get() holds exactly the items of the ring (in whatever physical order)
+    const romea::core::RingOfEigenVector<V> & cring = ring;
+    VF_CHECK(c, cring.get().size() == model.size() && ring.get().size() == model.size(), "op %d: get().size() = %zu, %zu items held", step, cring.get().size(), model.size());
+    std::vector<int> stored, held(model.begin(), model.end());
+    for (const V & e : cring.get()) {stored.push_back(static_cast<int>(e[0]));}
+    std::sort(stored.begin(), stored.end());
+    std::sort(held.begin(), held.end());
+    VF_CHECK(c, stored == held, "op %d: the items in get() are not the items held by the ring", step);
+    step++;
+  }
+}
+
 void ringHistory(vf::Ctx & c)
 {
   int cap = static_cast<int>(c.s.i("capacity", 1, 16));
@@ -266,38 +343,19 @@ void ringHistory(vf::Ctx & c)
   if (over) {c.label("wrapped(n>capacity)");}
   c.nontrivial(over && !pow2);
   c.nontrivial(clearThenAppend);
+  const size_t vt = c.s.pick("vector_type", {2, 1, 1});
+  c.labelIf(vt == 1, "ring-of-Vector3f");
+  c.labelIf(vt == 2, "ring-of-Vector4d");
   c.commit();
-
-  romea::core::RingOfEigenVector<Eigen::Vector2d> ring(static_cast<size_t>(cap));
-  std::deque<int> model;  // ids, newest first
-  int id = 0;
-  int step = 0;
-  for (int op : ops) {
-    if (op == 0) {
-      ++id;
-      ring.append(Eigen::Vector2d(id, -2.0 * id));
-      model.push_front(id);
-      if (static_cast<int>(model.size()) > cap) {model.pop_back();}
-    } else if (op == 2) {
-      // the argument is a reference into the ring itself: the appended item must be the value it had at the call
-      int which = model[static_cast<size_t>(aliasIdx[static_cast<size_t>(step)])];
-      ring.append(ring[static_cast<size_t>(aliasIdx[static_cast<size_t>(step)])]);
-      model.push_front(which);
-      if (static_cast<int>(model.size()) > cap) {model.pop_back();}
-    } else {
-      ring.clear();
-      model.clear();
-    }
-    VF_CHECK(c, ring.size() == model.size(), "op %d: size() = %zu, expected min(n, capacity) = %zu (capacity %d)", step, ring.size(), model.size(), cap);
-    for (size_t k = 0; k < model.size(); ++k) {
-      const Eigen::Vector2d & e = ring[k];
-      if (!(e[0] == model[k] && e[1] == -2.0 * model[k])) {
-        c.fail(vf::fmt("op %d (capacity %d, %zu held): ring[%zu] is item %g, the %zu-th most recent item is %d", step, cap, model.size(), k, e[0], k, model[k]));
-      }
-    }
-    step++;
+  if (vt == 0) {
+    runRing<Eigen::Vector2d>(c, cap, ops, aliasIdx);
+  } else if (vt == 1) {
+    runRing<Eigen::Vector3f>(c, cap, ops, aliasIdx);
+  } else {
+    runRing<Eigen::Vector4d>(c, cap, ops, aliasIdx);
   }
 }
+
 
 const char * kHistRule =
   "window W in 1..64 (2..64 variance); precision 10^-k (k=0..6), 1/m (m<=1e6) or 2^-k (k<=19); 1..4 segments of updates separated "
